@@ -226,15 +226,16 @@ def propagate(eng, res, rule="R-SYSMASS-PROPAGATE"):
            sorted(kinds) == ["component-unspecified", "no-estimate"], f"False returned under: {kinds}")
     # sources of estimates
     apps = [c for c in calls(fi, "append")]
+    from ..lits import guard_lits
+
     srcs = {}
     for c in apps:
-        g = [src(t) for t, pol in cfg.guard_exprs(cfg.node_of(c)) if pol]
-        srcs[src(c.args[0])] = g
+        srcs[src(c.args[0])] = guard_lits(flow, c)
     ok = any(k == fi.params[1] for k in srcs) and any(k.endswith(".mixture.system_mass") for k in srcs)
     tm = [k for k in srcs if not k.endswith("system_mass") and k != fi.params[1]]
-    ok2 = len(tm) == 1 and any(f"== len({M})" in s_ for s_ in srcs[tm[0]])
+    ok2 = len(tm) == 1 and any(l[0] == "num" and l[2] == "==" and l[3] == 0 and "Name('len')" in l[1] and f"Name('{M}')" in l[1] for l in srcs[tm[0]])
     res.ob(rule, fi, "estimate-sources", "estimates: the caller's system mass, each component's system mass, and the sum of absolute masses only when every component has one",
-           fi.node, ok and ok2, f"sources {srcs}")
+           fi.node, ok and ok2, f"sources {sorted(srcs)}")
 
 
 def _ancestors(n):
